@@ -37,8 +37,9 @@ struct BodyRec {
     std::vector<SeenArg> args;
 };
 
-extern std::vector<BodyRec> g_log;
-extern int g_deliveries;
+// thread-local: the concurrent engine (C16) calls from several threads
+extern thread_local std::vector<BodyRec> g_log;
+extern thread_local int g_deliveries;
 
 struct ErrorSeen {
     enum Kind { none, resolution, unknown_class, method_table, hash_search,
@@ -450,7 +451,7 @@ struct Engine {
     // ---- methods -----------------------------------------------------------
 
     Objects objects;
-    std::vector<std::shared_ptr<void>> keepalive;
+    static inline thread_local std::vector<std::shared_ptr<void>> keepalive;
     std::vector<MethodEntry> methods;
     std::deque<detail::definition_info> def_store;
     std::deque<void*> next_store;
